@@ -60,7 +60,7 @@ class Bench:
             net = jio.load_network(path, eqpt or self.eq_topo)
             return {'nodes': {n.uid: n for n in net.nodes()},
                     'edges': sorted(f'{a.uid}->{b.uid}:{w["weight"]!r}' for a, b, w in net.edges(data=True))}
-        if kind == 'equipment' and role in ('main', 'reordered', 'written'):
+        if kind == 'equipment' and role in ('main', 'reordered', 'written', 'qualified'):
             return jio.load_equipments_and_configs(path, [], [])
         if kind == 'equipment' and role == 'extra':
             return jio.load_equipments_and_configs(self.base_eqpt, [path], [])
@@ -145,12 +145,13 @@ def observe(bench, doc, as_int, name):
                 tr.setdefault(fld, du.placeholder(kind, f2))
             break
     det['yang_json'], det['back_json'] = Y, L
-    tr['lr'] = tr['lw'] = du.placeholder(kind, 'legacy')
+    tr['lr'] = tr['lw'] = tr['lq'] = du.placeholder(kind, 'legacy')
     others = {}
     if Y is not None:
         from gnpy.tools.yang_convert_utils import dump_data
         # two more YANG files of the same document: keyed lists in another order; the file written by gnpy's writer
         for stage, make, field in (('reordered', lambda: du.reorder_keyed_lists(kind, Y), 'lr'),
+                                   ('qualified', lambda: du.qualify_identities(kind, Y), 'lq'),
                                    ('written', lambda: json.loads(dump_data(copy.deepcopy(Y))), 'lw')):
             try:
                 other = make()
@@ -165,7 +166,7 @@ def observe(bench, doc, as_int, name):
         tr['loads'].append(ld)
         det['loads'].append(rep)
         for role, other in others.items():
-            if role == 'reordered' and other == Y:
+            if role in ('reordered', 'qualified') and other == Y:
                 continue                         # this document has no keyed list with two entries: same file
             # "legacy" side of these pairs = the converter's in-memory YANG output written as is
             ld, rep = bench.load_pair(kind, Y, other, role=role)
@@ -253,8 +254,9 @@ def classify(tr, det, stage, clause):
     kind = doc.get('kind', tr.get('dkind', '?'))
     what = ''
     if clause in ('RoundTrip', 'NoForeignKeysInLegacy', 'StructurePreserved', 'KeyedListOrderIrrelevant',
-                  'WrittenFileMeansTheSame') and tr.get('l'):
-        obs = tr[{'KeyedListOrderIrrelevant': 'lr', 'WrittenFileMeansTheSame': 'lw'}.get(clause, 'l')]
+                  'WrittenFileMeansTheSame', 'IdentitySpellingIrrelevant') and tr.get('l'):
+        obs = tr[{'KeyedListOrderIrrelevant': 'lr', 'WrittenFileMeansTheSame': 'lw',
+                  'IdentitySpellingIrrelevant': 'lq'}.get(clause, 'l')]
         ref = doc if obs is tr['l'] else dict(tr['l'], extra=[])
         comps = diff_components(ref, dict(obs, extra=[])) if obs.get('extra') != ['~no-document'] else []
         comps = sorted({re.sub(r'\[\]|#len', '', c).split('.')[1] + '.' + re.sub(r'\[\]|#len', '', c).split('.')[2]
@@ -470,12 +472,13 @@ def run(chk):
                                    exceptions=det['exceptions'],
                                    loads=[{k: v for k, v in x.items() if k not in ('all_differing', 'classes')}
                                           for x in det['loads']],
-                                   observed={k: tr.get(k) for k in ('y', 'l', 'lr', 'lw') if clause in ('RoundTrip', 'YangFormAsSpecified',
+                                   observed={k: tr.get(k) for k in ('y', 'l', 'lr', 'lw', 'lq') if clause in ('RoundTrip', 'YangFormAsSpecified',
                                                                                           'NoForeignKeysInLegacy',
                                                                                           'NoForeignKeysInYang',
                                                                                           'StructurePreserved',
                                                                                           'KeyedListOrderIrrelevant',
-                                                                                          'WrittenFileMeansTheSame')},
+                                                                                          'WrittenFileMeansTheSame',
+                                                                                          'IdentitySpellingIrrelevant')},
                                    lib=tr['lib'] if clause == 'AliasesReportTheirName' else None))
         # the load clauses must not be vacuous: most documents of every kind are accepted by the loader of the legacy form
         for k in sorted({t['doc']['kind'] for t in traces}):
